@@ -94,10 +94,15 @@ func reqTree(minor int, op int64, payload wire.Node) wire.Node {
 }
 
 func respTree(minor int, op int64, payload wire.Node) wire.Node {
+	return respTreeStatus(minor, op, 0, payload)
+}
+
+// respTreeStatus: a response item may carry a payload whenever it is not a failure (Success, Pending, Undone).
+func respTreeStatus(minor int, op int64, status int64, payload wire.Node) wire.Node {
 	payload.Tag = kmip.TagResponsePayload
 	return st(kmip.TagResponseMessage,
 		st(kmip.TagResponseHeader, pv(minor), wire.Node{Tag: kmip.TagTimeStamp, Type: wire.DateTime, Int: 1700000000}, integer(kmip.TagBatchCount, 1)),
-		st(kmip.TagBatchItem, enum(kmip.TagOperation, op), enum(kmip.TagResultStatus, 0), payload))
+		st(kmip.TagBatchItem, enum(kmip.TagOperation, op), enum(kmip.TagResultStatus, status), payload))
 }
 
 type decoded struct {
@@ -237,7 +242,7 @@ func Spec() *core.Spec {
 			"9 object types in Get/Export responses and Register/Import requests plus unknown and mismatching object type codes; 50 standard attribute names x 10 TTLV value types; custom/arbitrary attribute names x 10 types; payload types registered for a vendor operation at run time, after the first decode, in a fresh process. " +
 			"Inputs are built by the independent generator (binary) or from the generic tree (XML/JSON). 8 goroutines decoding goroutine-specific custom attributes at once; a vendor operation NAME registered at run time followed by all built-in operations written by name by independent writers; distinct = distinct (class, operation/object/attribute, direction, encoding, value type) combinations",
 		Assumptions: []string{"operation/object/attribute type tables in harness/gen/ops.go are written from the KMIP 1.4 specification"},
-		Required:    []string{"typed_payloads", "opaque_payloads", "objects_typed", "objects_unknown_rejected", "attrs_typed", "attrs_wrong_type_rejected", "attrs_opaque", "late_registration_decodes", "late_registration_named_decodes", "concurrent_opaque_decodes"},
+		Required:    []string{"reused_targets", "typed_responses.status2", "typed_responses.status3", "typed_payloads", "opaque_payloads", "objects_typed", "objects_unknown_rejected", "attrs_typed", "attrs_wrong_type_rejected", "attrs_opaque", "late_registration_decodes", "late_registration_named_decodes", "late_registration_object_decodes", "concurrent_opaque_decodes"},
 		Families: []core.Family{
 			{Name: "ops-typed", N: nOf(27*2*3*5*3, 27*2*3*5*600), Run: func(c *core.Ctx, r *core.Rand, i int) {
 				op := &gen.Ops[i%27]
@@ -258,14 +263,19 @@ func Spec() *core.Spec {
 					panic(fmt.Sprintf("harness: %v", err))
 				}
 				var t wire.Node
+				status := []int64{0, 2, 3}[(i/810)%3] // Success, Operation Pending, Operation Undone
 				if resp {
-					t = respTree(minor, int64(op.Code), nodes[0])
+					t = respTreeStatus(minor, int64(op.Code), status, nodes[0])
+					c.Count(fmt.Sprintf("typed_responses.status%d", status), 1)
 				} else {
 					t = reqTree(minor, int64(op.Code), nodes[0])
 				}
 				in := Input(enc, t)
 				label := fmt.Sprintf("%s %s at 1.%d", op.Name, dirName(resp), minor)
-				c.Distinct(core.Hash64("typed", op.Name, dirName(resp), enc))
+				if resp && status != 0 {
+					label += fmt.Sprintf(" with result status %d", status)
+				}
+				c.Distinct(core.Hash64("typed", op.Name, dirName(resp), enc, fmt.Sprint(status)))
 				d, derr, ok := decodeMsg(c, enc, in, resp, label)
 				if !ok {
 					return
@@ -362,6 +372,7 @@ func Spec() *core.Spec {
 			{Name: "objects", N: nOf(9*4*3*4+60*3, 9*4*3*2000+60*3*100), Run: func(c *core.Ctx, r *core.Rand, i int) {
 				objectsCase(c, r, i, mode)
 			}},
+			{Name: "reused-target", N: nOf(600, 60000), Run: reusedTarget},
 			{Name: "concurrent-opaque", N: nOf(40, 12000), Run: concurrentOpaque},
 			{Name: "late-registration", Isolated: true, Exhaustive: true, N: func(string) int { return 2 }, Run: lateRegistration},
 			{Name: "attrs-std", Exhaustive: true, N: func(tier string) int { return 50 * 10 * 3 }, Run: func(c *core.Ctx, r *core.Rand, i int) {
@@ -557,6 +568,143 @@ func concurrentOpaque(c *core.Ctx, r *core.Rand, i int) {
 	}
 }
 
+// reusedTarget: a request batch item value that already holds a decoded item is decoded into again (an application
+// keeping one item value per connection). Afterwards it must hold the second item's payload - of the type registered
+// for the second item's operation, with the second item's content only.
+func reusedTarget(c *core.Ctx, r *core.Rand, i int) {
+	enc := encs[i%3]
+	g := gen.New(r, gen.Mode{Minor: 4, Gate: true, Text: gen.TextASCII, TextDates: true}, refmodel.Gates())
+	build := func(k int) (wire.Node, reflect.Type) {
+		var code int64
+		var pl wire.Node
+		var want reflect.Type
+		switch k % 3 {
+		case 0:
+			code = int64(0x80000100 + r.Intn(2)) // vendor operation: opaque payload
+			pl = genericPayload(g, false)
+			want = reflect.TypeFor[*kmip.UnknownPayload]()
+		default:
+			op := &gen.Ops[r.Intn(4)]
+			code = int64(op.Code)
+			nodes, err := refmodel.TreeTag(kmip.TagRequestPayload, g.Payload(op, false), 4)
+			if err != nil || len(nodes) != 1 {
+				panic(fmt.Sprintf("harness: %v", err))
+			}
+			pl = nodes[0]
+			want = reflect.PointerTo(op.Req)
+		}
+		pl.Tag = kmip.TagRequestPayload
+		return st(kmip.TagBatchItem, enum(kmip.TagOperation, code), pl), want
+	}
+	first, _ := build(r.Intn(3))
+	second, want := build(r.Intn(3))
+	var item kmip.RequestBatchItem
+	in1, in2 := Input(enc, first), Input(enc, second)
+	var e1, e2 error
+	decodeItem := func(in []byte) error {
+		var d ttlv.Decoder
+		var err error
+		switch enc {
+		case "xml":
+			d, err = ttlv.NewXMLDecoder(in)
+		case "json":
+			d, err = ttlv.NewJSONDecoder(in)
+		default:
+			d, err = ttlv.NewTTLVDecoder(in)
+		}
+		if err != nil {
+			return err
+		}
+		return d.TagAny(kmip.TagBatchItem, &item)
+	}
+	if p, pv, stk := core.Guard(func() {
+		e1 = decodeItem(in1)
+		e2 = decodeItem(in2)
+	}); p {
+		c.Violation(core.PanicSig(pv, stk), fmt.Sprintf("decoding into a batch item value that already holds an item panicked: %v", pv), map[string]any{"first": show(enc, in1), "second": show(enc, in2), "stack": stk})
+		return
+	}
+	c.Count("reused_targets", 1)
+	c.Distinct(core.Hash64("reused-target", enc, first.Shape(), second.Shape()))
+	if e1 != nil || e2 != nil {
+		c.Violation("C06:reused-target:decode-error:"+enc, fmt.Sprintf("two valid batch items decoded one after the other into the same value: %v / %v", e1, e2), map[string]any{"first": show(enc, in1), "second": show(enc, in2)})
+		return
+	}
+	if reflect.TypeOf(item.RequestPayload) != want {
+		c.Violation("C06:reused-target:wrong-type:"+enc, fmt.Sprintf("a batch item value that held a %s item and then decoded a %#x item holds a %T; registered for that operation is %s",
+			first.Children[0].String(), uint32(second.Children[0].Int), item.RequestPayload, want), map[string]any{"first": show(enc, in1), "second": show(enc, in2)})
+		return
+	}
+	var re []byte
+	if p, pv, stk := core.Guard(func() {
+		e := ttlv.NewTTLVEncoder()
+		e.TagAny(kmip.TagBatchItem, &item)
+		re = append([]byte{}, e.Bytes()...)
+	}); p {
+		c.Violation(core.PanicSig(pv, stk), fmt.Sprintf("re-encoding a reused batch item panicked: %v", pv), map[string]any{"stack": stk})
+		return
+	}
+	if want := wire.Gen(second); !bytes.Equal(re, want) {
+		c.Violation("C06:reused-target:"+enc+":content", "a batch item value that already held an item does not hold exactly the second item after decoding it (content of the first one is mixed in)",
+			map[string]any{"first": show(enc, in1), "second": show(enc, in2), "reencoded": hx(re), "second_canonical": hx(want)})
+	}
+}
+
+// vendorKey is a vendor object type built on a standard one (its ObjectType method is the promoted one).
+type vendorKey struct {
+	kmip.SymmetricKey
+}
+
+// lateObjects: object types registered at run time under vendor codes.
+func lateObjects(c *core.Ctx, g *gen.G) {
+	const vendorOpaque, vendorSym = kmip.ObjectType(0x80000001), kmip.ObjectType(0x80000002)
+	kmip.RegisterObject(vendorOpaque, &kmip.OpaqueObject{})
+	kmip.RegisterObject(vendorSym, &vendorKey{})
+	mk := func(code kmip.ObjectType, obj kmip.Object) wire.Node {
+		nodes, err := refmodel.TreeTag(kmip.TagResponsePayload, &payloads.GetResponsePayload{ObjectType: code, UniqueIdentifier: "id", Object: obj}, 4)
+		if err != nil {
+			panic(err)
+		}
+		return respTree(4, int64(kmip.OperationGet), nodes[0])
+	}
+	for _, enc := range encs {
+		// the vendor code names the structure registered for it
+		t := mk(vendorOpaque, &kmip.OpaqueObject{OpaqueDataType: kmip.OpaqueDataType(0x80000001), OpaqueDataValue: []byte{1, 2, 3}})
+		in := Input(enc, t)
+		c.Count("late_registration_object_decodes", 1)
+		d, derr, ok := decodeMsg(c, enc, in, true, "Get response carrying an object type registered at run time")
+		if ok {
+			sig := "C06:late-registration:object:" + enc
+			if derr != nil {
+				c.Violation(sig+":decode-error", fmt.Sprintf("an object announced under object type 0x80000001, registered at run time for the Opaque Object structure, does not decode from %s: %v", enc, derr), map[string]any{"input": show(enc, in)})
+			} else if gp, isGet := d.payload.(*payloads.GetResponsePayload); !isGet || reflect.TypeOf(gp.Object) != reflect.TypeFor[*kmip.OpaqueObject]() {
+				c.Violation(sig+":wrong-type", fmt.Sprintf("object type 0x80000001 decodes to %T, registered is *kmip.OpaqueObject", d.payload), map[string]any{"input": show(enc, in)})
+			}
+		}
+		// and every standard object type still names its own structure
+		for _, ot := range gen.ObjectTypes {
+			t := mk(ot.Code, g.Object(ot.Code))
+			in := Input(enc, t)
+			c.Count("late_registration_object_decodes", 1)
+			d, derr, ok := decodeMsg(c, enc, in, true, ot.Name+" in a Get response after vendor object types were registered")
+			if !ok {
+				continue
+			}
+			sig := "C06:late-registration:standard-object:" + ot.Name + ":" + enc
+			if derr != nil {
+				c.Violation(sig+":decode-error", fmt.Sprintf("%s no longer decodes from %s after vendor object types were registered: %v", ot.Name, enc, derr), map[string]any{"input": show(enc, in)})
+				continue
+			}
+			gp, isGet := d.payload.(*payloads.GetResponsePayload)
+			if !isGet || gp.Object == nil || reflect.TypeOf(gp.Object) != reflect.PointerTo(ot.Type) {
+				c.Violation(sig+":wrong-type", fmt.Sprintf("%s decodes to %T after a vendor object type built on a standard structure was registered; the object type names %s", ot.Name, gp.Object, ot.Type), map[string]any{"input": show(enc, in)})
+				continue
+			}
+			preserved(c, sig+":content", enc, in, d.msg, t, ot.Name)
+		}
+	}
+}
+
 // vendor payload types registered at run time (public API kmip.RegisterOperationPayload)
 type vendorRequest struct {
 	UniqueIdentifier string
@@ -709,6 +857,7 @@ func lateRegistration(c *core.Ctx, r *core.Rand, i int) {
 			}
 		}
 	}
+	lateObjects(c, g)
 }
 
 func objectsCase(c *core.Ctx, r *core.Rand, i int, mode func(*core.Rand, int) *gen.G) {
